@@ -65,7 +65,7 @@ package failsafe
 //@   requires execWellFormed(e) && !held(e.mtx)
 //@   requires [C08.cancel_atomic] e.cancelFunc != nil && uf("ctxof", e.cancelFunc) == e.ctx
 //@   let was := ret(e.ctx.Err, 1) != nil
-//@   ensures [C08.cancel.records+C15.cancel.records_latest] !was ==> canceled(e.ctx) && cellof(e.canceledResult, *common.PolicyResult) == result
+//@   ensures [C08.cancel.records+C15.cancel.records_latest+C09.cancel_reaches_the_attempt] !was ==> canceled(e.ctx) && cellof(e.canceledResult, *common.PolicyResult) == result
 //@   ensures [C08.cancel.last_result] !was && result != nil ==> e.lastResult == result.Result && e.lastError == result.Error
 //@   ensures [C08.cancel.first_wins] was ==> canceled(e.ctx)
 //@   modifies e.lastResult, e.lastError, *e.canceledResult, canceled(e.ctx), calls(e.ctx.Err), calls(e.cancelFunc)
